@@ -142,7 +142,7 @@ def main(ctx):
     runs = [("random", run_mode(ctx, h, d, "equiv", total, drv_modes=drv, tag="equiv")),
             ("exhaustive", run_mode(ctx, h, d, "equiv", 0, extra="--exhaustive %d" % (4 if ctx.thorough else 3),
                                     drv_modes=drv, tag="equiv-ex", timeout=900))]
-    n_cases = n_oracle = n_skipped = n_order_only = 0
+    n_cases = n_oracle = n_skipped = n_order_only = n_search = 0
     distinct, distinct_nontrivial = set(), set()
     recipes, sizes, merged_hist, feats = {}, {}, {}, {"duplicate_attack_lines": 0, "self_attack": 0, "several_classes_merged": 0,
                                                         "grounded_nonempty": 0, "grounded_defeated_nonempty": 0}
@@ -216,6 +216,28 @@ def main(ctx):
                         corr_broken.append(("line %d: impl `%s` model `%s`" % dd, c))
                     else:
                         n_order_only += 1
+    # the correspondence broke but the oracle accepted every generated case: search for a failing input with
+    # fresh seeds (the oracle alone judges; only frameworks small enough for all_exts CO are useful)
+    if corr_broken and not oracle_bad:
+        for rnd in range(1, 9 if ctx.thorough else 7):
+            found = False
+            for sh_ in run_mode(ctx, h, d, "equiv", 2 * total, drv_modes=drv, tag="equiv-search", seed_offset=100 + rnd):
+                if isinstance(sh_[0], str):
+                    continue
+                impl, (model, spec), path = sh_
+                ss = {c.id: c for c in spec}
+                for c in impl:
+                    n_search += 1
+                    sc = ss.get(c.id)
+                    v = verdict_of(sc) if sc is not None else "missing"
+                    if v.startswith("bad") or v == "panic":
+                        oracle_bad.append(("oracle (all_exts CO) on the implementation's output: %s" % v, c))
+                        found = True
+                        break
+                if found:
+                    break
+            if found:
+                break
     # report: minimised failing inputs first
     for why, c in oracle_bad[:3]:
         n, atts = framework_of(c)
@@ -243,6 +265,7 @@ def main(ctx):
         ctx.violation("proof obligations not discharged: %s" % ", ".join(bad), "theorems: %s\n" % ", ".join(bad), found_input=False)
     ctx.cov.update({
         "evaluations": n_cases,
+        "search_cases_after_broken_correspondence": n_search,
         "oracle_evaluations": n_oracle,
         "oracle_skipped_too_large": n_skipped,
         "distinct_frameworks": len(distinct),
